@@ -152,7 +152,7 @@ theorem KSorted_of_natural (F : Facts03) (hF : F.keyOrder = .natural) (delim : T
 
 /-! ## the strict decoder on a documented request, pairs in any order -/
 
-theorem decode_documented_strict (F : Facts03) (hF : F.keyOrder = .natural)
+theorem decode_documented_strict (F : Facts03) (L : LeafLaws F.leaf) (hF : F.keyOrder = .natural)
     (cfg : Cfg) (fields : List Fld) (ms : Members) (doc : Doc)
     (hstrict : cfg.strict = true) (hsoft : cfg.soft = false)
     (htag : (F.tagScope = .perRequestClass && hasDup (cidsFields fields)) = false)
@@ -178,12 +178,12 @@ theorem decode_documented_strict (F : Facts03) (hF : F.keyOrder = .natural)
     (fun y hy => by obtain ⟨_, _, _, _, h3⟩ := hvalid y hy; exact h3) hsorted
   rw [hyseq, foldO_map]
   have hcongr := foldO_congr
-    (fun s (a : KEntry) => stepKeyT F true fields (stiFields cfg.delim [] fields) s
+    (fun s (a : KEntry) => stepKeyT F true false fields (stiFields cfg.delim [] fields) s
       (renderKey cfg.delim a.segs, a.kv.texts F))
     (walkK true fields) ys (by
       intro s a ha
       obtain ⟨occ, ty, h1, h2, h3⟩ := hvalid a ha
-      exact stepKeyT_render F true fields cfg.delim hkeys a occ ty h1 h2 h3 s)
+      exact stepKeyT_render F L true false fields cfg.delim hkeys a occ ty h1 h2 h3 s)
     (freshAttrs fields)
   rw [hcongr]
   obtain ⟨attrs', h1, h2⟩ := walkAll_strict F _ fields ms (Nat.le_refl _) hwf.1.1 hwf.2 hwt hcontig ys hys hks
